@@ -60,7 +60,7 @@ class SourceIndex:
                                 or name + ".__init__" in self.reg.contracts:
                             return FuncRef(name)
                         return PyConst(("builtin", name)) if n.module in ("typing", "collections", "itertools",
-                                                                           "functools", "operator") \
+                                                                           "functools", "operator", "random", "copy", "time") \
                             else FuncRef(name)
             if isinstance(n, ast.Assign) and len(n.targets) == 1 and isinstance(n.targets[0], ast.Name) \
                     and n.targets[0].id == name:
